@@ -77,6 +77,97 @@ fn c03_table(u: &Unit) -> Table {
     t
 }
 
+/// the items written right of a command name: the sub-command's own named occurrences and the
+/// enclosing level's (which it still owns there) may be permuted among themselves too
+#[allow(clippy::too_many_arguments)]
+fn permute_right_of_command(unit: &Value, family: &str, p: &bpaf::OptionParser<Val>, t: &Table, argv: &[Tok], seg: &Segmented, base: &Outcome, ctx: &mut Ctx) -> u64 {
+    if !seg.rest_is_cmd || family != "conventional" {
+        return 0;
+    }
+    let u: Unit = match serde_json::from_value(unit.clone()) {
+        Ok(u) => u,
+        Err(_) => return 0,
+    };
+    let name = match argv[seg.fixed_from].utf8() {
+        Some(n) => n.to_string(),
+        None => return 0,
+    };
+    fn find<'a>(p: &'a P, name: &str, out: &mut Option<&'a Opts>) {
+        if out.is_some() {
+            return;
+        }
+        if let P::Cmd { name: n, shorts, longs, inner, .. } = p {
+            if n == name || longs.iter().any(|l| l == name) || shorts.iter().any(|c| c.to_string() == name) {
+                *out = Some(inner);
+            }
+            return;
+        }
+        match p {
+            P::Seq(v) | P::Alt(v) | P::Choice(v) | P::Adj(v) => v.iter().for_each(|x| find(x, name, out)),
+            P::Optional(x, _) | P::Many(x, _) | P::Some_(x, _) | P::Fallback(x, _, _) | P::FallbackWith(x, _) | P::Hide(x) | P::Map(x, _) => find(x, name, out),
+            _ => {}
+        }
+    }
+    let mut inner = None;
+    find(&u.opts.p, &name, &mut inner);
+    let inner = match inner {
+        Some(i) => i,
+        None => return 0,
+    };
+    // the sub-level's names plus the enclosing level's (as further fields)
+    let mut t2 = table(inner);
+    for (k, v) in &t.shorts {
+        let mut v = v.clone();
+        v.field += 10_000;
+        t2.shorts.entry(*k).or_insert(v);
+    }
+    for (k, v) in &t.longs {
+        let mut v = v.clone();
+        v.field += 10_000;
+        t2.longs.entry(k.clone()).or_insert(v);
+    }
+    t2.flag_shorts.extend(t.flag_shorts.iter().copied());
+    t2.arg_shorts.extend(t.arg_shorts.iter().copied());
+    let tail = &argv[seg.fixed_from + 1..];
+    let seg2 = match segment(&t2, tail) {
+        Some(s) if !s.rest_is_cmd && s.blocks.len() >= 2 => s,
+        _ => return 0,
+    };
+    let identity: Vec<usize> = (0..seg2.blocks.len()).collect();
+    let mut perms = 0u64;
+    orderings(&seg2.blocks, &mut |order| {
+        if order == identity.as_slice() {
+            return;
+        }
+        let mut argv2 = argv[..=seg.fixed_from].to_vec();
+        argv2.extend(apply_order(tail, &seg2, order));
+        ctx.begin_case(|| json!({"base": argv, "perm": argv2}));
+        let r = run(p, &argv2);
+        ctx.s.evaluations += 1;
+        ctx.s.transitions += 1;
+        perms += 1;
+        ctx.count("permutations-right-of-a-command-name");
+        if equivalent(base, &r) {
+            return;
+        }
+        let mut sig = BTreeMap::new();
+        sig.insert("family".to_string(), "conventional-right-of-command".to_string());
+        sig.insert("base".to_string(), base.class().to_string());
+        sig.insert("permuted".to_string(), r.class().to_string());
+        ctx.violation(Violation {
+            property: "C03".into(),
+            rule: "permuting-whole-named-occurrences-keeps-the-outcome".into(),
+            sig,
+            unit: unit.clone(),
+            case: json!({"base": argv, "perm": argv2}),
+            expected: format!("same outcome as the base order: {}", base.brief()),
+            observed: r.brief(),
+            size: argv.len() * 1000 + argv.iter().map(|t| t.0.len()).sum::<usize>(),
+        });
+    });
+    perms
+}
+
 fn equivalent(a: &Outcome, b: &Outcome) -> bool {
     match (a, b) {
         (Outcome::Value(x), Outcome::Value(y)) => x == y,
@@ -96,6 +187,16 @@ pub fn check_vector(unit: &Value, family: &str, p: &bpaf::OptionParser<Val>, t: 
         }
     };
     if seg.blocks.len() < 2 {
+        if seg.rest_is_cmd && family == "conventional" {
+            let base = run(p, argv);
+            ctx.s.evaluations += 1;
+            let n = permute_right_of_command(unit, family, p, t, argv, &seg, &base, ctx);
+            if n > 0 {
+                ctx.s.states += 1;
+                ctx.count_n("permutations", n);
+                return;
+            }
+        }
         ctx.count("base-vectors-with-nothing-to-permute");
         return;
     }
@@ -140,6 +241,7 @@ pub fn check_vector(unit: &Value, family: &str, p: &bpaf::OptionParser<Val>, t: 
             size: argv.len() * 1000 + argv.iter().map(|t| t.0.len()).sum::<usize>(),
         });
     });
+    perms += permute_right_of_command(unit, family, p, t, argv, &seg, &base, ctx);
     if perms > 0 {
         ctx.s.states += 1;
         ctx.count_n("permutations", perms);
@@ -244,7 +346,7 @@ impl Check for C03 {
         ctx.s.evaluations += c2.s.evaluations;
     }
     fn rule(&self) -> String {
-        "definitions = all ordered tuples of <=2 (thorough: 3) distinct field kinds from 12 (switch, argument, repeated argument, bare and repeated choice, optional and repeated group, hidden argument with fallback, guarded u32, counter, parse+fallback, optional choice with a defaulted branch) x 4 tails, plus the conventional family (alphabet with explicitly empty attached values `--name=`), plus exclusive alternatives of groups that share a switch ({-v [--level L]} | {-v --out O FILE..}, 30 ordered pairs of 6 group templates, with and without a neighbouring switch; here a field is a leaf parser, so items of one group and of different branches are permuted freely); plus levels with a configured version whose alphabet contains the help and version requests (--help -h --version -V are named occurrences of two more fields; equal stdout text demanded); base vectors = every vector of the token tree; each base vector that is a sequence of whole occurrences is cut into blocks (flag / argument with its value / word / undeclared dash item such as -z or -5, which keeps its place among the words; nothing crosses a command name or `--`) and EVERY permutation that keeps the relative order of blocks feeding one field and of the words is run and compared with the base outcome (equal value, or same failure class); evaluation = one run; non-trivial = base vector with at least one different permuted vector and at least one accepted order".into()
+        "definitions = all ordered tuples of <=2 (thorough: 3) distinct field kinds from 12 (switch, argument, repeated argument, bare and repeated choice, optional and repeated group, hidden argument with fallback, guarded u32, counter, parse+fallback, optional choice with a defaulted branch) x 4 tails, plus the conventional family (alphabet with explicitly empty attached values `--name=`), plus exclusive alternatives of groups that share a switch ({-v [--level L]} | {-v --out O FILE..}, 30 ordered pairs of 6 group templates, with and without a neighbouring switch; here a field is a leaf parser, so items of one group and of different branches are permuted freely); plus levels with a configured version whose alphabet contains the help and version requests (--help -h --version -V are named occurrences of two more fields; equal stdout text demanded); base vectors = every vector of the token tree; each base vector that is a sequence of whole occurrences is cut into blocks (flag / argument with its value / word / undeclared dash item such as -z or -5, which keeps its place among the words; nothing crosses a command name or `--`; the occurrences right of a command name, the sub-command own ones and those of the enclosing level, are permuted among themselves as well) and EVERY permutation that keeps the relative order of blocks feeding one field and of the words is run and compared with the base outcome (equal value, or same failure class); evaluation = one run; non-trivial = base vector with at least one different permuted vector and at least one accepted order".into()
     }
     fn bounds(&self, tier: Tier) -> Value {
         json!({"fields_per_level": tier.pick("<=2 + tail", "<=3 + tail"), "vector_length": tier.pick("4 (shapes), 3 (conventional)", "5 (shapes), 4 (3-field shapes, conventional)")})
